@@ -8,7 +8,7 @@ import subprocess
 import sys
 
 from .. import gen, sem
-from ..snapshot import CLASS_NAMES, build, pg_from_json, pg_to_json
+from ..snapshot import CLASS_NAMES, build, case_graph_for_sample, case_pg, pg_from_json, pg_to_json
 from . import c01
 
 LEVEL = "exploration"
@@ -31,7 +31,7 @@ ANCHORS = [
     "stereomolgraph.algorithms.color_refine:_reaction_generator",
 ]
 REQUIRED_ANCHORS = ANCHORS
-REQUIRED = ["hash_pairs", "process_graphs", "with_changes", "with_placeholder", "mirror_rewrites", "large_graphs"]
+REQUIRED = ["hash_pairs", "process_graphs", "with_changes", "with_placeholder", "mirror_rewrites", "large_graphs", "scale_cases"]
 CASE_TIMEOUT = 1600
 
 
@@ -63,6 +63,9 @@ def gen_cases(ctx):
             pg = gen.random_pg(rng, cls, n_range=big if rng.random() < 0.3 else (2, 9), alphabet=rng.choice([gen.TINY, gen.SMALL, gen.WIDE]), p_none=0.0, allow_empty=False)
         m = gen.random_bijection(rng, pg)
         yield {"kind": "variant", "cls": cls, "pg": pg_to_json(pg), "variant": c01.VARIANTS[j % len(c01.VARIANTS)], "bseed": rng.randrange(1 << 30), "idmap": [[a, b] for a, b in m.items()]}
+    for k, nsz in enumerate(gen.SCALE_SIZES[ctx.tier]):
+        for c, cls in enumerate(CLASS_NAMES):
+            yield {"kind": "variant", "cls": cls, "scale": nsz, "gseed": rng.randrange(1 << 30), "variant": ("rebuild", "derived", "relabel_copy", "relabel_inplace")[(k + c) % 4], "bseed": rng.randrange(1 << 30)}
     # process part: hash seeds are spread over the shards
     seeds = list(range(1, 5)) if ctx.tier == "quick" else [*range(1, 31), 4294967295, "random"]
     for k, hs in enumerate(seeds):
@@ -87,9 +90,11 @@ def check_case(ctx, case):
         return
     if case["kind"] == "process":
         return _process(ctx, case)
-    pg = pg_from_json(case["pg"])
+    pg = case_pg(case)
+    if "scale" in case:
+        ctx.count("scale_cases")
     cls, variant = case["cls"], case["variant"]
-    m = {a: b for a, b in case["idmap"]}
+    m = {a: b for a, b in case["idmap"]} if "idmap" in case else gen.random_bijection(random.Random(case["bseed"] + 1), pg)
     brng = random.Random(case["bseed"])
     fkey = "+".join(c01.features(pg)) or "plain"
     try:
@@ -122,7 +127,7 @@ def check_case(ctx, case):
                 ctx.violate(f"C03/set-membership/{cls}/{variant}/{fkey}", "equal graphs with equal hashes are two different set members", case)
         except Exception as e:  # noqa: BLE001
             ctx.violate(f"C03/set-raises:{type(e).__name__}/{cls}/{variant}/{fkey}", f"set/dict membership raised {e!r}", case)
-    ctx.sample({"class": cls, "variant": variant, "graph": case["pg"], "hash": h1})
+    ctx.sample({"class": cls, "variant": variant, "graph": case_graph_for_sample(case), "hash": h1})
 
 
 def _process(ctx, case):
